@@ -27,6 +27,20 @@ func (v *hasSideEffectVisitor) Visit(node ast.Node) (w ast.Visitor) {
 			v.hasSideEffect = true
 			return nil
 		}
+		// Converting a slice to an array or to an array pointer panics if the
+		// slice is too short.
+		if tv, ok := v.info.Types[n.Fun]; ok && tv.IsType() && len(n.Args) == 1 {
+			if _, fromSlice := v.info.TypeOf(n.Args[0]).Underlying().(*types.Slice); fromSlice {
+				to := tv.Type.Underlying()
+				if ptr, isPtr := to.(*types.Pointer); isPtr {
+					to = ptr.Elem().Underlying()
+				}
+				if _, toArray := to.(*types.Array); toArray {
+					v.hasSideEffect = true
+					return nil
+				}
+			}
+		}
 	case *ast.UnaryExpr:
 		if n.Op == token.ARROW {
 			v.hasSideEffect = true
@@ -59,6 +73,14 @@ func (v *hasSideEffectVisitor) Visit(node ast.Node) (w ast.Visitor) {
 		if sel := v.info.Selections[n]; sel != nil && sel.Kind() == types.FieldVal && sel.Indirect() {
 			v.hasSideEffect = true
 			return nil
+		}
+		// Taking a method value from a nil interface or through a nil pointer panics.
+		if sel := v.info.Selections[n]; sel != nil && sel.Kind() == types.MethodVal {
+			_, isIface := sel.Recv().Underlying().(*types.Interface)
+			if isIface || sel.Indirect() {
+				v.hasSideEffect = true
+				return nil
+			}
 		}
 	case *ast.TypeAssertExpr:
 		// A failed single-value type assertion panics.
